@@ -16,7 +16,7 @@ package signer
 //@ requires h != nil
 //@ requires [wire] wireAtt(req)
 //@ requires [unlocked] !prelocked && (forall k [48]byte :: !held[k])
-//@ modifies tokroot, db, checkedset, held, prelocked
+//@ modifies tokroot, db, checkedset, deniedset, held, prelocked
 //@ ensures [released] !prelocked && (forall k [48]byte :: !held[k])
 //@ ensures [failclosed] result1 == nil && result0 != nil && ((result0.State == pb.ResponseState_SUCCEEDED) <==> (result0.Signature != nil))
 
@@ -24,7 +24,7 @@ package signer
 //@ requires h != nil
 //@ requires [wire] wireProp(req)
 //@ requires [unlocked] !prelocked && (forall k [48]byte :: !held[k])
-//@ modifies tokroot, db, checkedset, held, prelocked
+//@ modifies tokroot, db, checkedset, deniedset, held, prelocked
 //@ ensures [released] !prelocked && (forall k [48]byte :: !held[k])
 //@ ensures [failclosed] result1 == nil && result0 != nil && ((result0.State == pb.ResponseState_SUCCEEDED) <==> (result0.Signature != nil))
 
@@ -32,7 +32,7 @@ package signer
 //@ requires h != nil
 //@ requires [wire] wireSign(req)
 //@ requires [unlocked] !prelocked && (forall k [48]byte :: !held[k])
-//@ modifies tokroot, db, checkedset, held, prelocked
+//@ modifies tokroot, db, checkedset, deniedset, held, prelocked
 //@ ensures [released] !prelocked && (forall k [48]byte :: !held[k])
 //@ ensures [failclosed] result1 == nil && result0 != nil && ((result0.State == pb.ResponseState_SUCCEEDED) <==> (result0.Signature != nil))
 
@@ -63,7 +63,7 @@ package signer
 //@ requires h != nil
 //@ requires [wire] req != nil ==> (forall j int :: 0 <= j && j < len(req.Requests) ==> wireSign(req.Requests[j]))
 //@ requires [unlocked] !prelocked && (forall k [48]byte :: !held[k])
-//@ modifies tokroot, db, checkedset, held, prelocked
+//@ modifies tokroot, db, checkedset, deniedset, held, prelocked
 //@ ensures [released] !prelocked && (forall k [48]byte :: !held[k])
 //@ ensures [shape] result1 == nil && result0 != nil && len(result0.Responses) >= 1 && (forall i int :: 0 <= i && i < len(result0.Responses) ==> result0.Responses[i] != nil)
 //@ ensures [failclosed] forall i int :: 0 <= i && i < len(result0.Responses) ==> ((result0.Responses[i].State == pb.ResponseState_SUCCEEDED) <==> (result0.Responses[i].Signature != nil))
@@ -90,7 +90,7 @@ package signer
 //@ requires h != nil
 //@ requires [wire] req != nil ==> (forall j int :: 0 <= j && j < len(req.Requests) ==> wireAtt(req.Requests[j]))
 //@ requires [unlocked] !prelocked && (forall k [48]byte :: !held[k])
-//@ modifies tokroot, db, checkedset, held, prelocked
+//@ modifies tokroot, db, checkedset, deniedset, held, prelocked
 //@ ensures [released] !prelocked && (forall k [48]byte :: !held[k])
 //@ ensures [shape] result1 == nil && result0 != nil && len(result0.Responses) >= 1 && (forall i int :: 0 <= i && i < len(result0.Responses) ==> result0.Responses[i] != nil)
 //@ ensures [failclosed] forall i int :: 0 <= i && i < len(result0.Responses) ==> ((result0.Responses[i].State == pb.ResponseState_SUCCEEDED) <==> (result0.Responses[i].Signature != nil))
